@@ -99,7 +99,7 @@ func c12Ops(u *nodelite.Universe, thorough, race bool) []c12Op {
 		return r
 	}
 	ops = append(ops, up("A", false), up("A", true), up("B", false), bytesUp("B", false), bytesUp("B", true),
-		cache("A"), cache("B"), cache("C"), pin("A"), unpin("A"), restart)
+		cache("A"), cache("B"), cache("C"), cache("R"), pin("A"), unpin("A"), restart)
 	if thorough {
 		ops = append(ops, chunkUp('x', true), cache("D"))
 	}
@@ -116,8 +116,8 @@ func c12Names(m map[string]bool) string {
 }
 
 func TestVerifC12(t *testing.T) {
-	names := []string{"A", "B", "C", "D"}
-	letters := map[string]string{"A": "xy", "B": "xz", "C": "y", "D": "ww"}
+	names := []string{"A", "B", "C", "D", "R"}
+	letters := map[string]string{"A": "xy", "B": "xz", "C": "y", "D": "ww", "R": "xx"}
 	u, err := nodelite.BuildUniverse(names, letters)
 	if err != nil {
 		t.Fatalf("universe: %v", err)
@@ -142,7 +142,7 @@ func TestVerifC12(t *testing.T) {
 		"race_alphabet": raceNames, "max_racing_ops": 1,
 		"race_points": "inside every collectGarbage call: testHookGCIteratorDone (candidates selected) and the entry of every chunkinfo.DelFile call the collector makes (one per candidate)",
 		"depth": depth, "alphabet": opNames, "capacity": capacity, "gc_target_ratio": "as shipped (0.9)",
-		"files": letters, "chunk_size": boson.ChunkSize, "gc": "run synchronously after every operation that left a trigger pending",
+		"files": letters, "chunk_size": boson.ChunkSize, "initial_states": "empty (depth steps) | aurora(B), cache(R), cache(A) (depth-2 steps)", "gc": "run synchronously after every operation that left a trigger pending",
 	}}, func(x *mc.X) {
 		n, err := nodelite.New(nodelite.Options{Capacity: capacity, Universe: u})
 		x.NoErr(err, "node")
@@ -150,8 +150,48 @@ func TestVerifC12(t *testing.T) {
 		uploaded := map[string]bool{}   // chunks whose current presence originates from an upload
 		registered := map[string]bool{} // files uploaded through POST /aurora or cached, and not evicted since
 		gcRuns, evictions := 0, 0
-		for step := 0; step < depth; step++ {
-			op := ops[x.Choose(len(ops))]
+		// initial state: empty store (depth steps), or a store that already holds content sharing one chunk
+		// three ways — B=[x,z] uploaded through POST /aurora, R=[x,x] (x repeated inside the file) and A=[x,y]
+		// cached; gcSize 7 of capacity 8 — so that histories with two successive collection runs over
+		// shared and repeated chunks are inside the bound (depth-2 steps)
+		steps := depth
+		populated := x.Choose(2) == 1
+		// quick: cache(R) is offered only on top of the populated state (thorough: everywhere)
+		stepOps := ops
+		if !populated && !thorough {
+			stepOps = nil
+			for _, o := range ops {
+				if o.name != "cache(R)" {
+					stepOps = append(stepOps, o)
+				}
+			}
+		}
+		if populated {
+			steps = depth - 2
+			s0, err := n.Snap()
+			x.NoErr(err, "snapshot")
+			if c, _ := n.UploadAurora("B", u.ByName["B"].Data, false); c != 201 {
+				x.Broken("initial upload of B: %d", c)
+			}
+			s1, err := n.Snap()
+			x.NoErr(err, "snapshot")
+			for c := range s1.Data {
+				if !s0.Data[c] {
+					uploaded[c] = true
+				}
+			}
+			x.NoErr(n.Cache(u.ByName["R"]), "initial cache(R)")
+			x.NoErr(n.Cache(u.ByName["A"]), "initial cache(A)")
+			registered["B"], registered["R"], registered["A"] = true, true, true
+			s2, err := n.Snap()
+			x.NoErr(err, "snapshot")
+			if s2.Trigger {
+				x.Broken("initial state requests a collection run")
+			}
+			x.Logf("initial state: aurora(B), cache(R), cache(A)   [%s]", s2.Key())
+		}
+		for step := 0; step < steps; step++ {
+			op := stepOps[x.Choose(len(stepOps))]
 			s0, err := n.Snap()
 			x.NoErr(err, "snapshot")
 			out := op.run(n)
@@ -374,7 +414,7 @@ func TestVerifC12(t *testing.T) {
 			x.NoErr(err, "infokey")
 			sk, err := n.Snap()
 			x.NoErr(err, "snapshot")
-			if x.Seen(sk.Key()+"#"+ik+"#U:"+c12Names(uploaded)+"#R:"+c12Names(registered), depth-step-1) {
+			if x.Seen(sk.Key()+"#"+ik+"#U:"+c12Names(uploaded)+"#R:"+c12Names(registered), steps-step-1) {
 				return
 			}
 		}
